@@ -24,6 +24,7 @@ func runC04(c *Ctx) {
 	c.NotCovered("that retransmitted bytes are not double counted at the byte level")
 
 	c.rule("C04.1", func() { c04UpperBound(c) })
+	c.rule("C04.1", func() { c04InitialSendWindow(c) })
 	c.rule("C04.2", func() { c04SendWindow(c) })
 	c.rule("C04.3", func() { c04ReceiveSide(c) })
 	c.rule("C04.5", func() { c04BytesRead(c) })
@@ -459,6 +460,60 @@ func c04Blocked(c *Ctx) {
 			})
 		}
 		c.Floor(R, spec.frame+" construction sites", n, 1)
+	}
+}
+
+// c04InitialSendWindow: the initial send window of a new stream is the peer's limit for that kind of stream.
+func c04InitialSendWindow(c *Ctx) {
+	const R = "C04.1"
+	f := c.fn("", "Conn", "newFlowController")
+	nsfc := c.obj(fc, "", "NewStreamFlowController")
+	tp := "internal/wire"
+	uni := c.fld(tp, "TransportParameters", "InitialMaxStreamDataUni")
+	remote := c.fld(tp, "TransportParameters", "InitialMaxStreamDataBidiRemote")
+	local := c.fld(tp, "TransportParameters", "InitialMaxStreamDataBidiLocal")
+	persp := c.fld("", "Conn", "perspective")
+	initBy := c.obj("internal/protocol", "StreamID", "InitiatedBy")
+	calls := findInstrs(f, CallsTo(nsfc))
+	c.Floor(R, "NewStreamFlowController calls", len(calls), 1)
+	own := Rel{Op: token.EQL, X: CallTo(initBy, -1), Y: Load(persp)}
+	for _, in := range calls {
+		arg := in.(ssa.CallInstruction).Common().Args[4]
+		ph, ok := arg.(*ssa.Phi)
+		if !c.Check(ok, R, "shape:initial send window selected by stream kind", c.P.InstrPos(in), "the window is chosen per stream type and initiator") {
+			continue
+		}
+		seen := map[string]bool{}
+		var walk func(v ssa.Value, pred *ssa.BasicBlock)
+		walk = func(v ssa.Value, pred *ssa.BasicBlock) {
+			if p2, ok := v.(*ssa.Phi); ok {
+				for k, e := range p2.Edges {
+					walk(e, p2.Block().Preds[k])
+				}
+				return
+			}
+			blk := pred
+			if in2, ok := v.(ssa.Instruction); ok {
+				blk = in2.Block()
+			}
+			switch {
+			case Load(remote)(v):
+				seen["remote"] = true
+				c.Check(blockOnEdge(blk, own) || dominatedByEdge(blk, own, false), R, "select:self-initiated bidi stream → peer's initial_max_stream_data_bidi_remote", c.P.InstrPos(in), "a stream we open is 'remote' from the peer's point of view")
+			case Load(local)(v):
+				seen["local"] = true
+				c.Check(dominatedByEdge(blk, own, true) || func() bool {
+					// entered through the != edge
+					return len(blk.Preds) == 1 && !blockOnEdge(blk, own)
+				}(), R, "select:peer-initiated bidi stream → peer's initial_max_stream_data_bidi_local", c.P.InstrPos(in), "a stream the peer opened is 'local' from its point of view")
+			case Load(uni)(v):
+				seen["uni"] = true
+			default:
+				c.Bad(R, "select:unknown initial send window source", c.P.InstrPos(in), "unexpected value")
+			}
+		}
+		walk(ph, nil)
+		c.Check(seen["remote"] && seen["local"] && seen["uni"], R, "select:all three peer limits used", c.P.InstrPos(in), "uni / bidi-local / bidi-remote")
 	}
 }
 
